@@ -116,15 +116,21 @@ def run_unit(template, overlay=None, tag="", tier="quick", keep=True, timeout=60
     res.cmd = " ".join(cmd)
     env = dict(os.environ)
     env["CARGO_NET_OFFLINE"] = "true"
+    import signal
+    pr = subprocess.Popen(cmd, stdout=subprocess.PIPE, stderr=subprocess.PIPE, env=env, cwd=os.path.join(OUT, "gen"), start_new_session=True)
     try:
-        p = subprocess.run(cmd, stdout=subprocess.PIPE, stderr=subprocess.PIPE, timeout=timeout, env=env, cwd=os.path.join(OUT, "gen"))
+        so, se = pr.communicate(timeout=timeout)
     except subprocess.TimeoutExpired:
+        try:
+            os.killpg(pr.pid, signal.SIGKILL)
+        except OSError:
+            pass
         res.undecided.append("verus timed out after %ds" % timeout)
         res.wall_s = time.time() - t0
         return res
     res.wall_s = time.time() - t0
-    stdout = p.stdout.decode("utf-8", "replace")
-    stderr = p.stderr.decode("utf-8", "replace")
+    stdout = so.decode("utf-8", "replace")
+    stderr = se.decode("utf-8", "replace")
     try:
         oj = json.loads(stdout[stdout.index("{"):]) if "{" in stdout else None
     except Exception:
